@@ -21,7 +21,7 @@ extern "C" int randomx_blake2b(void* out, size_t outlen, const void* in, size_t 
 int main(int argc, char** argv) {
 	uint64_t seed = strtoull(arg(argc, argv, "--seed", "1"), nullptr, 10);
 	bool thorough = !strcmp(arg(argc, argv, "--tier", "quick"), "thorough");
-	int nstreams = atoi(arg(argc, argv, "--streams", thorough ? "200" : "24"));
+	int nstreams = atoi(arg(argc, argv, "--streams", thorough ? "640" : "48"));
 	FILE* out = fopen(arg(argc, argv, "--out", "/dev/stdout"), "w");
 	Rng rng(seed);
 	static const uint8_t special[] = { 0, 0, 0, 1, 2, 4, 8, 16, 32, 64, 128, 255, 254, 3, 5, 127 };
